@@ -98,6 +98,16 @@ def check_cxx(inp):
         orig, rend = strip_attrs(text), strip_attrs(g)
         ext = "" if a.params is not None else "extern "
         name = a.name
+        # the declared names are whole identifiers of the text (no keyword is cut off the front of 'constant', 'volatile_flag')
+        ids = re.findall(r'[A-Za-z_]\w*', orig)
+        pnames = [p_.name for p_ in (a.params or []) if p_.name]
+        for nm_ in [name] + pnames:
+            if nm_ and nm_ not in ids:
+                return "the declaration %r is recorded with the name %r, which is not an identifier of the text" % (text, nm_)
+        if inp.get("names"):
+            want = inp["names"].get(text)
+            if want and [name] + pnames != want:
+                return "the declaration %r is recorded with the names %r, the text declares %r" % (text, [name] + pnames, want)
         if not name:
             continue
         lines.append("namespace o%d { %s%s; }" % (i, ext, orig))
@@ -164,8 +174,14 @@ def check_scoped(inp):
     inner = outer.add_namespace("inner")
     inner.add_declaration("class Data")
     inner.add_declaration("class Leaf")
-    scopes = {"": lib, "outer": outer, "outer::inner": inner}
+    base_ns = lib.add_namespace("base_ns")
+    base_ns.add_declaration("class Data")
+    base_ns.add_declaration("class Only")
+    base_ns.add_declaration("class Base")
+    derived = outer.add_declaration("class Derived : public base_ns::Base")
+    scopes = {"": lib, "outer": outer, "outer::inner": inner, "outer::Derived": derived}
     lines = ["#include <string>", "#include <vector>", "#include <type_traits>", "class Data; class Top;",
+             "namespace base_ns { class Data; class Only; class Base {}; }",
              "namespace outer { class Data; namespace inner { class Data; class Leaf; } }"]
     index = {}
     n = 0
@@ -181,6 +197,17 @@ def check_scoped(inp):
         except Exception as ex:
             return "rendering raised %s: %s for %r in scope %r" % (type(ex).__name__, str(ex)[:80], text, scope)
         orig = re.sub(r'\b%s\s*\(' % re.escape(a.name), "o%d(" % i, strip_attrs(text), 1)
+        if scope == "outer::Derived":
+            # a member of a class derived from a class of ANOTHER namespace: names are looked up in the class, its bases,
+            # then the namespaces around the derived class (not those around the base)
+            lines.append("namespace outer { class Derived%d : public base_ns::Base { public: static %s; }; }" % (i, orig))
+            index[len(lines)] = (i, "orig")
+            lines.append("%s;" % rend)
+            index[len(lines)] = (i, "rendering %r is rejected by g++" % rend)
+            lines.append('static_assert(std::is_same<decltype(outer::Derived%d::o%d), decltype(r%d)>::value, "S%d");' % (i, i, i, i))
+            index[len(lines)] = (i, "in scope %r the names resolve differently from g++: shroud records %r" % (scope, rend))
+            n += 1
+            continue
         opener = "".join("namespace %s { " % s_ for s_ in scope.split("::")) if scope else ""
         closer = "}" * len(scope.split("::")) if scope else ""
         lines.append("%s%s; %s" % (opener, orig, closer))
@@ -351,9 +378,9 @@ def cxx_family():
 
 def scoped_family():
     names = ["Data", "::Data", "outer::Data", "::outer::Data", "inner::Data", "outer::inner::Data", "::outer::inner::Data", "Top", "::Top",
-             "Leaf", "inner::Leaf", "std::string", "::std::string"]
+             "Leaf", "inner::Leaf", "std::string", "::std::string", "Only", "base_ns::Data", "base_ns::Only"]
     items = []
-    for scope in ("", "outer", "outer::inner"):
+    for scope in ("", "outer", "outer::inner", "outer::Derived"):
         for nm in names:
             items.append([scope, "void f(%s *d)" % nm])
             items.append([scope, "%s *f()" % nm])
@@ -361,7 +388,21 @@ def scoped_family():
     return items
 
 
+KEYWORD_PREFIXED = {
+    "double constrain(double value, double constant)": ["constrain", "value", "constant"],
+    "int volatile_flag": ["volatile_flag"],
+    "int *constant": ["constant"],
+    "void f(int unsigned_count, long longer, short shortest)": ["f", "unsigned_count", "longer", "shortest"],
+    "void g(int classic, int structure, int enumerate, int statics)": ["g", "classic", "structure", "enumerate", "statics"],
+    "int integer": ["integer"],
+    "double doubled(double voided, char character)": ["doubled", "voided", "character"],
+    "void h(int namespaced, int templated, int typename_)": ["h", "namespaced", "templated", "typename_"],
+    "bool boolean(bool signedness, int constexpr_like)": ["boolean", "signedness", "constexpr_like"],
+}
+
+
 def candidates(seed, around=None):
+    yield {"kind": "cxx", "texts": sorted(KEYWORD_PREFIXED), "names": KEYWORD_PREFIXED}
     fam = cxx_family() + ["%s a" % s for s in INTSPEC] + ["%s *f(%s a, const %s *b)" % (s, s, s) for s in INTSPEC]
     sc = scoped_family()
     for i in range(0, len(sc), 45):
